@@ -445,12 +445,12 @@ pub fn run(a: &Args) {
                 id += a.num("bigsizes", 3) as usize;
             }
             if ch == 0 && (prop == "C01" || prop == "C02" || prop == "all") && family(t) != "point" {
-                // beyond the usual counts: more than 255 parts, more than 1 000 points
+                // beyond the usual counts: more than 1 024 parts, more than 1 024 points
                 let g = GenCfg { max_parts: 1, max_pts: 1, special_pct: 5, xy_span: 8 };
                 let many_parts = match family(t) {
                     "multipoint" => AShape { t, parts: vec![(0..1100).map(|_| gen_point(&mut r, t, &g)).collect()], kinds: vec![], bbox: [0; 8] },
-                    _ => AShape { t, parts: (0..300).map(|_| (0..4).map(|_| gen_point(&mut r, t, &g)).collect()).collect(),
-                                  kinds: (0..300).map(|i| if t == 31 { (i % 6) as i32 } else { (i % 2) as i32 }).collect::<Vec<_>>().into_iter().filter(|_| t == 31 || family(t) == "polygon").collect(), bbox: [0; 8] },
+                    _ => AShape { t, parts: (0..1100).map(|_| (0..3).map(|_| gen_point(&mut r, t, &g)).collect()).collect(),
+                                  kinds: (0..1100).map(|i| if t == 31 { (i % 6) as i32 } else { (i % 2) as i32 }).collect::<Vec<_>>().into_iter().filter(|_| t == 31 || family(t) == "polygon").collect(), bbox: [0; 8] },
                 };
                 id += 1;
                 run_case(&mut tr, &c, &prop, t, &[many_parts], &tmp.0, id);
